@@ -57,7 +57,18 @@ pub fn broker_snap(b: &UistBroker<HClient>, syms: &[String]) -> Value {
     let holdings = b.get_holdings();
     // iteration order of the holdings map (what get_positions() returns)
     let positions = b.get_positions();
-    let hold_ord: Vec<Value> = positions.iter().map(|k| json!([k, fb(holdings[k])])).collect();
+    // (robust against a positions list that is not an enumeration of the holdings map: stale entries are dropped
+    // here and duplicates kept, keys missing from it are appended; `positions_consistent` says whether it was one)
+    let mut hold_ord: Vec<Value> = positions.iter().filter_map(|k| holdings.get(k).map(|v| json!([k, fb(*v)]))).collect();
+    let mut extra: Vec<&String> = holdings.keys().filter(|k| !positions.contains(k)).collect();
+    extra.sort();
+    for k in extra {
+        hold_ord.push(json!([k, fb(holdings[k])]));
+    }
+    let mut uniq = positions.clone();
+    uniq.sort();
+    uniq.dedup();
+    let positions_consistent = uniq.len() == positions.len() && positions.len() == holdings.len() && positions.iter().all(|k| holdings.contains_key(k));
     let mut quotes: Vec<Value> = b
         .get_quotes()
         .unwrap_or_default()
@@ -83,6 +94,7 @@ pub fn broker_snap(b: &UistBroker<HClient>, syms: &[String]) -> Value {
     json!({
         "cash": fb(b.get_cash_balance()),
         "holdings": hold_ord,
+        "positions_consistent": positions_consistent,
         "pending": sorted_map(&b.get_pending_orders()),
         "with_pending_keys": sorted_keys(&b.get_holdings_with_pending()),
         "quotes": quotes,
